@@ -273,6 +273,30 @@ def check(prop, tier, seed):
     for out in errors:
         e = out["error"]
         if e["type"] == "unsupported":
+            # the function uses a construct outside the verified subset: no obligation could be generated.  The contract's
+            # native small-scope search may still exhibit a failing input of the real function.
+            nat = None
+            if out.get("module") and out.get("name") and out.get("kind") == "contract":
+                key = (out["module"], out["name"])
+                if key not in searched:
+                    searched[key] = native({"module": out["module"], "name": out["name"], "mode": "search",
+                                            "budget": 5000 if tier == "quick" else 100000})
+                nat = searched[key]
+            if nat is not None and nat.get("status") == "fails":
+                violations += 1
+                oid = out["task"].split(".")[-1] + ":contract:native-search"
+                rp = os.path.join(rpdir, _safe(oid) + ".json")
+                doc = {"property": prop, "obligation": oid, "kind": "contract", "task": {"module": out["module"], "name": out["name"]},
+                       "solver": None, "solver_output": "no obligations generated (unsupported construct: " + e["msg"][:200] + "); failing input "
+                       "found by the contract's native small-scope search", "counter_model": nat.get("model"), "native_replay": nat,
+                       "reproduced_on_real_code": True, "repo": REPO, "tier": tier}
+                with open(rp, "w") as fh:
+                    json.dump(doc, fh, indent=1, default=str)
+                lines.append(f"VIOLATION property={prop} replay={rp}")
+                lines.append(f"  contract of {out['task']} could not be checked deductively (unsupported: {e['msg'][:120]}); it fails natively:")
+                lines.append(f"  native search: {str(nat.get('desc'))[:300]}")
+                exit_code = 1
+                continue
             lines.append(f"UNDECIDED property={prop} task={out['task']} reason=unsupported: {e['msg'][:300]}")
             if exit_code == 0:
                 exit_code = 2
